@@ -512,3 +512,369 @@ Proof.
   apply forallb_forall; intros x Hin; apply In_nth_error in Hin as [i N].
   specialize (ZL _ _ N). unfold ltok in ZL. unfold l_bound. destruct (l_pc x) as [| | | | | | | |[]|]; try reflexivity; discriminate.
 Qed.
+
+(** ** Progress invariant of the repaired code (for [no_hang] and [hooks_before_finished]) *)
+Definition s_pend (p : spc) : bool := match p with SSet | SInit | SSwap => true | _ => false end.
+Definition s_will_notify (p : spc) : bool := match p with SSet | SInit | SSwap | SNotify => true | _ => false end.
+Definition pend (s : state) : bool := existsb s_pend (callers s) || existsb l_hot (ls s) || existsb c_hot (cs s).
+Definition l_waits (l : listener) : bool := match l_pc l with LWaker | LChecked | LParked => true | _ => false end.
+Definition l_asleep (l : listener) : bool :=
+  match l_pc l with LChecked | LParked => negb (l_woken l) | _ => false end.
+Definition l_slot_ok (l : listener) : bool := implb (l_waits l && negb (l_woken l)) (l_slot l).
+Definition count (A : Type) (f : A -> bool) (l : list A) : nat := length (filter f l).
+Arguments count {A} f l.
+
+Record liveA (s : state) : Prop := {
+  lv_pend : gS s = true -> gD s = true \/ (0 < gC s)%Z \/ pend s = true;
+  lv_slot : forallb l_slot_ok (ls s) = true;
+  lv_wake : gS s = true -> existsb l_asleep (ls s) = true -> existsb s_will_notify (callers s) = true }.
+Record liveB (s : state) : Prop := {
+  lv_D : gD s = true -> comp s <> KNone;
+  lv_sent : match comp s with KSent | KLoop | KFinished => pre_sent s = true | _ => True end;
+  lv_acks : acks s = count h_acked (hooks s);
+  lv_reg : pre_count s = count h_registered (hooks s);
+  lv_want : match comp s with KLoop | KFinished => want s <= pre_count s | _ => True end;
+  lv_recv : received s <= acks s;
+  lv_fin : comp s = KFinished -> finished s = true /\ want s <= received s }.
+Definition live (s : state) : Prop := liveA s /\ liveB s.
+
+Lemma count_upd {A} (f : A -> bool) l i x old :
+  nth_error l i = Some old -> count f (upd i x l) + (if f old then 1 else 0) = count f l + (if f x then 1 else 0).
+Proof.
+  unfold count. revert i; induction l as [|a l IH]; intros [|i]; cbn [upd filter nth_error]; intros H; try discriminate.
+  - inversion H; subst. destruct (f old), (f x); cbn [length]; lia.
+  - specialize (IH _ H). destruct (f a); cbn [length]; lia.
+Qed.
+Lemma count_repeat_false {A} (f : A -> bool) x n : f x = false -> count f (repeat x n) = 0.
+Proof. intros H. unfold count. induction n; cbn [repeat filter]; [reflexivity|]. rewrite H. exact IHn. Qed.
+Lemma count_all {A} (f : A -> bool) l : forallb f l = true -> count f l = length l.
+Proof.
+  unfold count. induction l as [|a l IH]; cbn [forallb filter length]; [reflexivity|].
+  intros H. apply andb_true_iff in H as [H1 H2]. rewrite H1. cbn [length]. rewrite IH; auto.
+Qed.
+Lemma count_le {A} (f : A -> bool) l : count f l <= length l.
+Proof. unfold count. induction l as [|a l IH]; cbn [filter length]; [lia|]. destruct (f a); cbn [length]; lia. Qed.
+Lemma count_mono {A} (f g : A -> bool) l : (forall x, f x = true -> g x = true) -> count f l <= count g l.
+Proof.
+  intros H. unfold count. induction l as [|a l IH]; cbn [filter length]; [lia|].
+  destruct (f a) eqn:F; [rewrite (H _ F); cbn [length]; lia|]. destruct (g a); cbn [length]; lia.
+Qed.
+Lemma count_eq_all {A} (f g : A -> bool) l :
+  (forall x, f x = true -> g x = true) -> count g l <= count f l -> forall x, In x l -> g x = true -> f x = true.
+Proof.
+  intros H. unfold count. induction l as [|a l IH]; cbn [filter length]; intros Hc x Hin Hg; [destruct Hin|].
+  pose proof (count_mono f g l H) as M. unfold count in M.
+  destruct (f a) eqn:F, (g a) eqn:G; cbn [length] in Hc.
+  - destruct Hin as [->|Hin]; auto. apply IH; auto. lia.
+  - rewrite (H _ F) in G. discriminate.
+  - lia.
+  - destruct Hin as [->|Hin]; [congruence|]. apply IH; auto.
+Qed.
+
+Lemma live_init nl nc nh nw : live (init repaired nl nc nh nw).
+Proof.
+  split; constructor; cbn [init gS gD gC comp pre_sent acks pre_count hooks ls callers want received finished]; auto; try discriminate.
+  - induction nl; cbn; auto.
+  - rewrite count_repeat_false; auto.
+  - rewrite count_repeat_false; auto.
+Qed.
+
+Lemma existsb_upd_mono {A} (f : A -> bool) l i x old :
+  nth_error l i = Some old -> (f old = true -> f x = true) -> existsb f l = true -> existsb f (upd i x l) = true.
+Proof.
+  intros N H E. destruct (f old) eqn:Fo.
+  - eapply existsb_upd_intro; eauto.
+  - eapply existsb_upd_keep; eauto.
+Qed.
+
+(** *** part A: flag / count / wakers *)
+Lemma liveA_upd_l s s' i l l' :
+  liveA s -> nth_error (ls s) i = Some l ->
+  gS s' = gS s -> gD s' = gD s -> ls s' = upd i l' (ls s) -> callers s' = callers s ->
+  (existsb c_hot (cs s) = true -> existsb c_hot (cs s') = true) ->
+  (gS s = true -> (0 < gC s)%Z -> (0 < gC s')%Z \/ l_hot l' = true) ->
+  (gS s = true -> l_hot l = true -> l_hot l' = true \/ gD s = true) ->
+  l_slot_ok l' = true ->
+  (gS s = true -> l_asleep l' = true -> l_asleep l = true) ->
+  liveA s'.
+Proof.
+  intros [P SL W] N E1 E2 E3 E4 Hcs Hc Hh Hs Ha. constructor.
+  - rewrite E1, E2. intros GS. destruct (P GS) as [D|[Z|Pe]]; auto.
+    + destruct (Hc GS Z) as [Z'|Hl]; auto. right; right. unfold pend. rewrite E3.
+      rewrite (existsb_upd_intro _ _ _ _ _ N Hl). rewrite orb_true_r. reflexivity.
+    + unfold pend in Pe. apply orb_true_iff in Pe as [Pe|Pe]; [apply orb_true_iff in Pe as [Pe|Pe]|].
+      * right; right. unfold pend. rewrite E4, Pe. reflexivity.
+      * destruct (l_hot l) eqn:HL.
+        -- destruct (Hh GS eq_refl) as [Hl|D]; auto. right; right. unfold pend. rewrite E3.
+           rewrite (existsb_upd_intro _ _ _ _ _ N Hl). rewrite orb_true_r. reflexivity.
+        -- right; right. unfold pend. rewrite E3. rewrite (existsb_upd_keep _ _ _ _ _ N HL Pe). rewrite orb_true_r. reflexivity.
+      * right; right. unfold pend. rewrite (Hcs Pe). rewrite !orb_true_r. reflexivity.
+  - rewrite E3. apply forallb_upd; auto.
+  - rewrite E1, E3, E4. intros GS Ex. apply W; auto.
+    apply existsb_upd in Ex as [Ex|Ex]; auto. eapply existsb_nth; eauto.
+Qed.
+
+Lemma liveA_upd_c s s' i p p' :
+  liveA s -> nth_error (cs s) i = Some p ->
+  gS s' = gS s -> gD s' = gD s -> ls s' = ls s -> callers s' = callers s -> cs s' = upd i p' (cs s) ->
+  (gS s = true -> (0 < gC s)%Z -> (0 < gC s')%Z \/ c_hot p' = true) ->
+  (gS s = true -> c_hot p = true -> c_hot p' = true \/ gD s = true) ->
+  liveA s'.
+Proof.
+  intros [P SL W] N E1 E2 E3 E4 E5 Hc Hh. constructor.
+  - rewrite E1, E2. intros GS. destruct (P GS) as [D|[Z|Pe]]; auto.
+    + destruct (Hc GS Z) as [Z'|Hl]; auto. right; right. unfold pend. rewrite E5.
+      rewrite (existsb_upd_intro _ _ _ _ _ N Hl). rewrite !orb_true_r. reflexivity.
+    + unfold pend in Pe. apply orb_true_iff in Pe as [Pe|Pe]; [apply orb_true_iff in Pe as [Pe|Pe]|].
+      * right; right. unfold pend. rewrite E4, Pe. reflexivity.
+      * right; right. unfold pend. rewrite E3, Pe. rewrite orb_true_r. reflexivity.
+      * destruct (c_hot p) eqn:HL.
+        -- destruct (Hh GS eq_refl) as [Hl|D]; auto. right; right. unfold pend. rewrite E5.
+           rewrite (existsb_upd_intro _ _ _ _ _ N Hl). rewrite !orb_true_r. reflexivity.
+        -- right; right. unfold pend. rewrite E5. rewrite (existsb_upd_keep _ _ _ _ _ N HL Pe). rewrite !orb_true_r. reflexivity.
+  - rewrite E3. exact SL.
+  - rewrite E1, E3, E4. exact W.
+Qed.
+
+Lemma liveA_upd_s s s' k p p' :
+  liveA s -> nth_error (callers s) k = Some p ->
+  ls s' = ls s -> cs s' = cs s -> callers s' = upd k p' (callers s) ->
+  (gS s' = true -> gS s = true \/ (s_pend p' = true /\ s_will_notify p' = true)) ->
+  (gD s = true -> gD s' = true) -> (gS s = true -> (0 < gC s)%Z -> (0 < gC s')%Z \/ s_pend p' = true) ->
+  (s_pend p = true -> s_pend p' = true \/ gD s' = true \/ (0 < gC s')%Z) ->
+  (s_will_notify p = true -> s_will_notify p' = true) ->
+  liveA s'.
+Proof.
+  intros [P SL W] N E3 E4 E5 HS HD HC Hp Hw. constructor.
+  - intros GS'. destruct (HS GS') as [GS|[Pp _]].
+    + destruct (P GS) as [D|[Z|Pe]]; auto.
+      * destruct (HC GS Z) as [Z'|Pp]; auto. right; right. unfold pend. rewrite E5.
+        rewrite (existsb_upd_intro _ _ _ _ _ N Pp). reflexivity.
+      * unfold pend in Pe. apply orb_true_iff in Pe as [Pe|Pe]; [apply orb_true_iff in Pe as [Pe|Pe]|].
+        -- destruct (s_pend p) eqn:PP.
+           ++ destruct (Hp eq_refl) as [Pp|[D|Z]]; auto. right; right. unfold pend. rewrite E5.
+              rewrite (existsb_upd_intro _ _ _ _ _ N Pp). reflexivity.
+           ++ right; right. unfold pend. rewrite E5. rewrite (existsb_upd_keep _ _ _ _ _ N PP Pe). reflexivity.
+        -- right; right. unfold pend. rewrite E3, Pe. rewrite orb_true_r. reflexivity.
+        -- right; right. unfold pend. rewrite E4, Pe. rewrite !orb_true_r. reflexivity.
+    + right; right. unfold pend. rewrite E5. rewrite (existsb_upd_intro _ _ _ _ _ N Pp). reflexivity.
+  - rewrite E3. exact SL.
+  - rewrite E3, E5. intros GS' Ex. destruct (HS GS') as [GS|[_ Pw]].
+    + eapply existsb_upd_mono; eauto.
+    + eapply existsb_upd_intro; eauto.
+Qed.
+
+Lemma liveA_ext s s' :
+  liveA s -> gS s' = gS s -> (gD s = true -> gD s' = true) -> gC s' = gC s -> ls s' = ls s -> cs s' = cs s -> callers s' = callers s ->
+  liveA s'.
+Proof.
+  intros [P SL W] E1 E2 E3 E4 E5 E6. constructor.
+  - rewrite E1, E3. unfold pend. rewrite E4, E5, E6. intros GS. destruct (P GS) as [D|[Z|Pe]]; auto.
+  - rewrite E4. exact SL.
+  - rewrite E1, E4, E6. exact W.
+Qed.
+
+Lemma swapD_S s : gS (swapD s) = gS s. Proof. unfold swapD; destruct (gD s); reflexivity. Qed.
+Lemma swapD_D s : gD (swapD s) = true. Proof. unfold swapD; destruct (gD s) eqn:E; auto. Qed.
+
+Lemma notify_not_asleep l : forallb l_slot_ok l = true -> existsb l_asleep (map notify_one l) = false.
+Proof.
+  induction l as [|a l IH]; cbn [forallb map existsb]; intros H; [reflexivity|].
+  apply andb_true_iff in H as [H1 H2]. rewrite (IH H2), orb_false_r.
+  unfold l_slot_ok, l_waits, l_asleep, notify_one in *. destruct a as [pc sl wk q]; cbn [l_pc l_slot l_woken l_queue] in *.
+  destruct sl; cbn [l_pc l_woken]; [destruct pc; reflexivity|]. destruct pc, wk; cbn in *; congruence.
+Qed.
+Lemma notify_slot_ok l : forallb l_slot_ok l = true -> forallb l_slot_ok (map notify_one l) = true.
+Proof.
+  induction l as [|a l IH]; cbn [forallb map]; intros H; [reflexivity|].
+  apply andb_true_iff in H as [H1 H2]. rewrite (IH H2), andb_true_r.
+  unfold l_slot_ok, l_waits, notify_one in *. destruct a as [pc sl wk q]; cbn [l_pc l_slot l_woken l_queue] in *.
+  destruct sl; cbn [l_pc l_slot l_woken]; auto. rewrite andb_false_r. reflexivity.
+Qed.
+
+Ltac la_fin :=
+  try reflexivity; try (intros; assumption);
+  try (cbn; intros; auto; try discriminate; try congruence; try (left; lia)).
+
+Lemma liveA_swapD s : liveA s -> liveA (swapD s).
+Proof.
+  intros LA. eapply liveA_ext; eauto using swapD_S, swapD_C, swapD_ls, swapD_cs, swapD_callers. intros _. apply swapD_D.
+Qed.
+
+Lemma slot_ok_nth s i l : liveA s -> nth_error (ls s) i = Some l -> l_slot_ok l = true.
+Proof. intros LA N. eapply forallb_nth; [apply (lv_slot _ LA)|exact N]. Qed.
+
+Lemma liveA_step s lb s' : liveA s -> step repaired s lb = Some s' -> liveA s'.
+Proof.
+  intros LA H. destruct lb as [i|i|i|c|c|k| |h|w]; cbn [step] in H.
+  - (* LStep *)
+    destruct (nth_error (ls s) i) as [l|] eqn:N; [|discriminate].
+    pose proof (slot_ok_nth _ _ _ LA N) as SO.
+    unfold step_listener in H. destruct l as [pc slot woken q]. cbn [l_pc l_slot l_woken l_queue fixA fixC repaired] in H.
+    unfold l_slot_ok, l_waits in SO; cbn [l_pc l_slot l_woken] in SO.
+    destruct pc as [| | | | | | | |r|].
+    + inversion H; subst. eapply (liveA_upd_l s _ i _ _ LA N); la_fin; destruct (gS s); cbn; auto; discriminate.
+    + inversion H; subst. eapply (liveA_upd_l s _ i _ _ LA N); la_fin. destruct woken; reflexivity.
+    + inversion H; subst. eapply (liveA_upd_l s _ i _ _ LA N); la_fin; destruct (gS s); cbn; auto; try discriminate.
+    + unfold park in H; cbn [l_queue] in H. destruct q; [|discriminate]. inversion H; subst.
+      eapply (liveA_upd_l s _ i _ _ LA N); la_fin.
+    + destruct (woken || negb (q =? 0)); [|discriminate]. inversion H; subst.
+      eapply (liveA_upd_l s _ i _ _ LA N); la_fin.
+    + inversion H; subst. eapply (liveA_upd_l s _ i _ _ LA N); la_fin.
+    + inversion H; subst. eapply (liveA_upd_l s _ i _ _ LA N); la_fin.
+      match goal with E : existsb c_hot _ = true |- _ => rewrite existsb_app1, E; reflexivity end.
+    + inversion H; subst. eapply (liveA_upd_l s _ i _ _ LA N); la_fin.
+    + destruct r; cbn [rstep] in H.
+      * inversion H; subst. destruct (gC s - 1 <=? 0)%Z eqn:Ez;
+          eapply (liveA_upd_l s _ i _ _ LA N); la_fin; try (right; reflexivity); try (left; lia).
+      * inversion H; subst. eapply (liveA_upd_l s _ i _ _ LA N); la_fin; destruct (gS s); cbn; auto; try discriminate.
+      * inversion H; subst. pose proof (liveA_swapD _ LA) as LA2.
+        assert (N2 : nth_error (ls (swapD s)) i = Some {| l_pc := LRel RSwap; l_slot := slot; l_woken := woken; l_queue := q |})
+          by (rewrite swapD_ls; exact N).
+        eapply (liveA_upd_l (swapD s) _ i _ _ LA2 N2); la_fin. right. apply swapD_D.
+    + discriminate.
+  - (* LTake *)
+    destruct (nth_error (ls s) i) as [l|] eqn:N; [|discriminate].
+    unfold step_take in H. destruct l as [pc slot woken q]. cbn [l_pc l_slot l_woken l_queue] in H.
+    destruct q; [discriminate|]. destruct (can_take repaired pc) eqn:CT; [|discriminate]. inversion H; subst.
+    eapply (liveA_upd_l s _ i _ _ LA N); la_fin.
+    destruct pc as [| | | | | | | |r|]; cbn in CT; try discriminate; cbn; discriminate.
+  - (* EConn *)
+    destruct (nth_error (ls s) i) as [l|] eqn:N; [|discriminate].
+    pose proof (slot_ok_nth _ _ _ LA N) as SO.
+    destruct (l_bound l); [|discriminate]. inversion H; subst.
+    eapply (liveA_upd_l s _ i _ _ LA N); la_fin; destruct l; cbn in *; auto.
+  - (* CStep *)
+    destruct (nth_error (cs s) c) as [p|] eqn:N; [|discriminate].
+    unfold step_conn in H. destruct p as [| | |r|]; try discriminate.
+    + inversion H; subst. eapply (liveA_upd_c s _ c _ _ LA N); la_fin.
+    + inversion H; subst. eapply (liveA_upd_c s _ c _ _ LA N); la_fin.
+    + destruct r; cbn [rstep] in H.
+      * inversion H; subst. destruct (gC s - 1 <=? 0)%Z eqn:Ez;
+          eapply (liveA_upd_c s _ c _ _ LA N); la_fin; try (right; reflexivity); try (left; lia).
+      * inversion H; subst. eapply (liveA_upd_c s _ c _ _ LA N); la_fin; destruct (gS s); cbn; auto; try discriminate.
+      * inversion H; subst. pose proof (liveA_swapD _ LA) as LA2.
+        assert (N2 : nth_error (cs (swapD s)) c = Some (CRem RSwap)) by (rewrite swapD_cs; exact N).
+        eapply (liveA_upd_c (swapD s) _ c _ _ LA2 N2); la_fin. right. apply swapD_D.
+  - (* CPanic *)
+    destruct (nth_error (cs s) c) as [p|] eqn:N; [|discriminate].
+    unfold step_panic in H. destruct p; try discriminate. cbn [fixB repaired] in H. inversion H; subst.
+    eapply (liveA_upd_c s _ c _ _ LA N); la_fin.
+  - (* SStep *)
+    destruct (nth_error (callers s) k) as [p|] eqn:N; [|discriminate].
+    unfold step_caller in H. destruct p; try discriminate.
+    + inversion H; subst. eapply (liveA_upd_s s _ k _ _ LA N); la_fin.
+    + inversion H; subst. eapply (liveA_upd_s s _ k _ _ LA N); la_fin.
+    + inversion H; subst. eapply (liveA_upd_s s _ k _ _ LA N); la_fin; destruct (gC s <=? 0)%Z eqn:Ez; cbn; auto; try (right; right; lia).
+    + inversion H; subst. pose proof (liveA_swapD _ LA) as LA2.
+      assert (N2 : nth_error (callers (swapD s)) k = Some SSwap) by (rewrite swapD_callers; exact N).
+      eapply (liveA_upd_s (swapD s) _ k _ _ LA2 N2); la_fin. right; left. apply swapD_D.
+    + inversion H; subst. destruct LA as [P SL W]. constructor; cbn [with_callers with_ls gS gD gC ls cs callers].
+      * intros GS. destruct (P GS) as [D|[Z|Pe]]; auto. right; right. unfold pend in *.
+        cbn [with_callers with_ls ls cs callers].
+        apply orb_true_iff in Pe as [Pe|Pe]; [apply orb_true_iff in Pe as [Pe|Pe]|].
+        -- rewrite (existsb_upd_keep s_pend _ _ SDone _ N eq_refl Pe). reflexivity.
+        -- rewrite existsb_map_ext; [rewrite Pe; rewrite orb_true_r; reflexivity|].
+           intros x. unfold notify_one, l_hot. destruct (l_slot x); reflexivity.
+        -- rewrite Pe. rewrite !orb_true_r. reflexivity.
+      * apply notify_slot_ok; auto.
+      * intros _ Ex. rewrite notify_not_asleep in Ex; auto. discriminate.
+  - (* KStep *)
+    unfold step_comp in H.
+    destruct (comp s); try discriminate.
+    + inversion H; subst. eapply liveA_ext; eauto.
+    + inversion H; subst. eapply liveA_ext; eauto.
+    + destruct (want s <=? received s).
+      * inversion H; subst. eapply liveA_ext; eauto.
+      * destruct (received s <? acks s); [|discriminate]. inversion H; subst. eapply liveA_ext; eauto.
+  - (* HStep *)
+    destruct (nth_error (hooks s) h) as [p|] eqn:N; [|discriminate].
+    unfold step_hook in H. destruct p; try discriminate.
+    + inversion H; subst. eapply liveA_ext; eauto.
+    + destruct (pre_sent s); [|discriminate]. inversion H; subst. eapply liveA_ext; eauto.
+    + inversion H; subst. eapply liveA_ext; eauto.
+  - (* WStep *)
+    destruct (nth_error (waiters s) w) as [[|]|] eqn:N; try discriminate.
+    destruct (finished s); [|discriminate]. inversion H; subst. eapply liveA_ext; eauto.
+Qed.
+
+(** *** part B: completion task and hooks *)
+Lemma liveB_ext s s' :
+  liveB s -> gD s' = gD s -> comp s' = comp s -> pre_sent s' = pre_sent s -> acks s' = acks s -> hooks s' = hooks s ->
+  pre_count s' = pre_count s -> want s' = want s -> received s' = received s -> finished s' = finished s -> liveB s'.
+Proof.
+  intros [A B C D E F G] E1 E2 E3 E4 E5 E6 E7 E8 E9.
+  constructor; rewrite ?E1, ?E2, ?E3, ?E4, ?E5, ?E6, ?E7, ?E8, ?E9; auto.
+Qed.
+
+Lemma liveB_swapD s : liveB s -> safe s -> liveB (swapD s).
+Proof.
+  intros LB S. unfold swapD. destruct (gD s) eqn:ED; auto.
+  assert (K : comp s = KNone).
+  { destruct (comp s) eqn:K; auto; assert (X : gD s = true) by (apply (sf_comp _ S); rewrite K; discriminate); congruence. }
+  destruct LB as [A B C D E F G]. constructor; cbn [gD comp pre_sent acks hooks pre_count want received finished]; auto; discriminate.
+Qed.
+
+Lemma swapD_B s :
+  pre_sent (swapD s) = pre_sent s /\ acks (swapD s) = acks s /\ hooks (swapD s) = hooks s /\ pre_count (swapD s) = pre_count s /\
+  want (swapD s) = want s /\ received (swapD s) = received s /\ finished (swapD s) = finished s.
+Proof. unfold swapD; destruct (gD s); cbn; auto 10. Qed.
+
+Lemma liveB_step s lb s' : liveB s -> safe s -> step repaired s lb = Some s' -> liveB s'.
+Proof.
+  intros LB S H. destruct lb as [i|i|i|c|c|k| |h|w]; cbn [step] in H.
+  - destruct (nth_error (ls s) i) as [l|] eqn:N; [|discriminate].
+    unfold step_listener in H. destruct l as [pc slot woken q]. cbn [l_pc l_slot l_woken l_queue fixA fixC repaired] in H.
+    destruct pc as [| | | | | | | |r|]; try discriminate;
+      try (inversion H; subst; eapply liveB_ext; eauto; fail).
+    + unfold park in H; cbn [l_queue] in H. destruct q; [|discriminate]. inversion H; subst. eapply liveB_ext; eauto.
+    + destruct (woken || negb (q =? 0)); [|discriminate]. inversion H; subst. eapply liveB_ext; eauto.
+    + destruct r; cbn [rstep] in H; try (inversion H; subst; eapply liveB_ext; eauto; fail).
+      inversion H; subst. pose proof (liveB_swapD _ LB S) as LB2. eapply (liveB_ext (swapD s)); eauto.
+  - destruct (nth_error (ls s) i) as [l|] eqn:N; [|discriminate].
+    unfold step_take in H. destruct (l_queue l); [discriminate|]. destruct (can_take repaired (l_pc l)); [|discriminate].
+    inversion H; subst. eapply liveB_ext; eauto.
+  - destruct (nth_error (ls s) i) as [l|] eqn:N; [|discriminate].
+    destruct (l_bound l); [|discriminate]. inversion H; subst. eapply liveB_ext; eauto.
+  - destruct (nth_error (cs s) c) as [p|] eqn:N; [|discriminate].
+    unfold step_conn in H. destruct p as [| | |r|]; try discriminate; try (inversion H; subst; eapply liveB_ext; eauto; fail).
+    destruct r; cbn [rstep] in H; try (inversion H; subst; eapply liveB_ext; eauto; fail).
+    inversion H; subst. pose proof (liveB_swapD _ LB S) as LB2. eapply (liveB_ext (swapD s)); eauto.
+  - destruct (nth_error (cs s) c) as [p|] eqn:N; [|discriminate].
+    unfold step_panic in H. destruct p; try discriminate. inversion H; subst. eapply liveB_ext; eauto.
+  - destruct (nth_error (callers s) k) as [p|] eqn:N; [|discriminate].
+    unfold step_caller in H. destruct p; try discriminate; try (inversion H; subst; eapply liveB_ext; eauto; fail).
+    inversion H; subst. pose proof (liveB_swapD _ LB S) as LB2. eapply (liveB_ext (swapD s)); eauto.
+  - unfold step_comp in H. destruct LB as [A B C D E F G].
+    destruct (comp s) eqn:K; try discriminate.
+    + inversion H; subst. constructor; cbn [with_comp gD comp pre_sent acks hooks pre_count want received finished]; auto; discriminate.
+    + inversion H; subst. constructor; cbn [with_comp gD comp pre_sent acks hooks pre_count want received finished]; auto; discriminate.
+    + destruct (want s <=? received s) eqn:LE.
+      * inversion H; subst. constructor; cbn [with_comp gD comp pre_sent acks hooks pre_count want received finished]; auto; try discriminate.
+        intros _. split; auto. apply Nat.leb_le. exact LE.
+      * destruct (received s <? acks s) eqn:LT; [|discriminate]. inversion H; subst.
+        constructor; cbn [with_comp gD comp pre_sent acks hooks pre_count want received finished]; auto; try discriminate.
+        apply Nat.ltb_lt in LT. lia.
+  - destruct (nth_error (hooks s) h) as [p|] eqn:N; [|discriminate].
+    destruct LB as [A B C D E F G].
+    unfold step_hook in H. destruct p; try discriminate.
+    + inversion H; subst.
+      pose proof (count_upd h_acked _ _ HReg _ N) as U1. pose proof (count_upd h_registered _ _ HReg _ N) as U2. cbn in U1, U2.
+      constructor; cbn [with_hooks with_comp gD comp pre_sent acks hooks pre_count want received finished]; auto; try lia.
+      destruct (comp s); auto; lia.
+    + destruct (pre_sent s) eqn:PS; [|discriminate]. inversion H; subst.
+      pose proof (count_upd h_acked _ _ HSig _ N) as U1. pose proof (count_upd h_registered _ _ HSig _ N) as U2. cbn in U1, U2.
+      constructor; cbn [with_hooks with_comp gD comp pre_sent acks hooks pre_count want received finished]; auto; try lia.
+      destruct (comp s); auto.
+    + inversion H; subst.
+      pose proof (count_upd h_acked _ _ HAcked _ N) as U1. pose proof (count_upd h_registered _ _ HAcked _ N) as U2. cbn in U1, U2.
+      constructor; cbn [with_hooks with_comp gD comp pre_sent acks hooks pre_count want received finished]; auto; try lia.
+  - destruct (nth_error (waiters s) w) as [[|]|] eqn:N; try discriminate.
+    destruct (finished s); [|discriminate]. inversion H; subst. eapply liveB_ext; eauto.
+Qed.
+
+Lemma live_reachable s : reachable repaired s -> live s.
+Proof.
+  induction 1 as [nl nc nh nw|s lb s' R IH H]; [apply live_init|].
+  destruct IH as [LA LB]. split; [eapply liveA_step; eauto|eapply liveB_step; eauto using safe_reachable].
+Qed.
